@@ -81,7 +81,7 @@ def main(p):
 
     FORMS = ('dict', 'message', 'kwargs')
     for method, fields, svc in drive:
-        py = names.py_method(method)
+        py = a.get('method_prefix', '') + names.py_method(method) if method in a.get('internal_methods', ()) else names.py_method(method)
         client, ch = sync_clients[svc]
         rclient = rest_clients[svc]
         auto_here = [n for n, _ in fields]
@@ -116,7 +116,7 @@ def main(p):
     async def amain():
         aclients = {svc: lib.aio(svc) for svc in sync_clients}
         for method, fields, svc in drive:
-            py = names.py_method(method)
+            py = a.get('method_prefix', '') + names.py_method(method) if method in a.get('internal_methods', ()) else names.py_method(method)
             ac, ach = aclients[svc]
             auto_here = [n for n, _ in fields]
             for fname, state, req, exp in plans(fields):
